@@ -12,6 +12,7 @@
 // For EVERY sequence of exactly N steps (N = 4 / 6), each step chosen by `kani::any()` from
 //   0 new_state -> slot s     1 clone slot s -> slot t     2 drop slot s
 //   3 try_point_mut on slot s (writes a fresh symbolic tag on success)     4 copy_state slot s -> slot t
+//   (s symbolic; t = the lowest empty slot — handles are interchangeable, so this loses no behaviour)
 // over 3 handle slots (a step whose operands are not applicable — dead source, occupied target — is a
 // no-op, so all shorter sequences are covered):
 //   (UB)     no undefined behaviour (Kani memory-safety + default checks on)
@@ -150,17 +151,21 @@ fn check_all(pool: &StatePool<M, KPoint>, h: &[Option<State<M, KPoint>>; SLOTS],
     }
     // (FREE)
     let free = pool.storage.free_states.borrow();
+    let nfree = free.len();
+    assert!(nfree <= SLOTS, "C03.6 FREE: at most as many free entries as were ever live at once");
     let mut k = 0;
-    while k < free.len() {
-        assert!(Rc::strong_count(&free[k]) == 1, "C03.6 FREE: free entry strong = 1");
-        assert!(Rc::weak_count(&free[k]) == 0, "C03.6 FREE: free entry weak = 0");
-        let pf = &free[k].inner as *const KPoint;
-        let mut i = 0;
-        while i < SLOTS {
-            if let Some(si) = &h[i] {
-                assert!(si.point() as *const KPoint != pf, "C03.6 FREE: free entry not referenced by a live handle");
+    while k < SLOTS {
+        if let Some(e) = free.get(k) {
+            assert!(Rc::strong_count(e) == 1, "C03.6 FREE: free entry strong = 1");
+            assert!(Rc::weak_count(e) == 0, "C03.6 FREE: free entry weak = 0");
+            let pf = &e.inner as *const KPoint;
+            let mut i = 0;
+            while i < SLOTS {
+                if let Some(si) = &h[i] {
+                    assert!(si.point() as *const KPoint != pf, "C03.6 FREE: free entry not referenced by a live handle");
+                }
+                i += 1;
             }
-            i += 1;
         }
         k += 1;
     }
@@ -184,14 +189,23 @@ fn check_all(pool: &StatePool<M, KPoint>, h: &[Option<State<M, KPoint>>; SLOTS],
         i += 1;
     }
     let n_new = unsafe { N_NEW };
-    assert!(groups + free.len() == n_new, "C03.6 FREE: live states + free list = allocations");
+    assert!(groups + nfree == n_new, "C03.6 FREE: live states + free list = allocations");
 }
 
-fn others_alive(h: &[Option<State<M, KPoint>>; SLOTS], g: &Ghost, s: usize) -> bool {
+/// Store into an EMPTY slot without instantiating drop glue for the previous content (every call site
+/// checks `h[i].is_none()` first; the assertion re-checks it).
+#[inline(always)]
+fn put(h: &mut [Option<State<M, KPoint>>; SLOTS], i: usize, st: State<M, KPoint>) {
+    assert!(h[i].is_none(), "harness: target slot is empty");
+    let old = core::mem::replace(&mut h[i], Some(st));
+    core::mem::forget(old);
+}
+
+fn others_alive<const S: usize>(h: &[Option<State<M, KPoint>>; SLOTS], g: &Ghost) -> bool {
     let mut i = 0;
     let mut r = false;
     while i < SLOTS {
-        if i != s && h[i].is_some() && g.grp[i] == g.grp[s] {
+        if i != S && h[i].is_some() && g.grp[i] == g.grp[S] {
             r = true;
         }
         i += 1;
@@ -199,76 +213,110 @@ fn others_alive(h: &[Option<State<M, KPoint>>; SLOTS], g: &Ghost, s: usize) -> b
     r
 }
 
+/// One step with CONCRETE slot numbers (symbolic array indices cost CBMC an array-theory blow-up).
+fn step<const S: usize, const T: usize>(
+    op: u8,
+    pool: &StatePool<M, KPoint>,
+    math: &mut M,
+    h: &mut [Option<State<M, KPoint>>; SLOTS],
+    g: &mut Ghost,
+) {
+    match op {
+        0 => {
+            if h[S].is_none() {
+                let st = pool.new_state(math);
+                put(h, S, st);
+                g.grp[S] = g.next;
+                g.next += 1;
+                g.val[S] = None;
+            }
+        }
+        1 => {
+            if h[S].is_some() && h[T].is_none() {
+                let c = h[S].as_ref().unwrap().clone();
+                put(h, T, c);
+                g.grp[T] = g.grp[S];
+                g.val[T] = g.val[S];
+            }
+        }
+        2 => {
+            if h[S].is_some() {
+                let st = h[S].take();
+                drop(st);
+            }
+        }
+        3 => {
+            if h[S].is_some() {
+                let shared = others_alive::<S>(h, g);
+                let tag: i64 = kani::any();
+                let ok = match h[S].as_mut().unwrap().try_point_mut() {
+                    Ok(p) => {
+                        p.v = tag;
+                        true
+                    }
+                    Err(_) => false,
+                };
+                assert!(ok == !shared, "C03.6 MUT: try_point_mut succeeds iff the state is unshared");
+                if ok {
+                    g.val[S] = Some(tag);
+                }
+            }
+        }
+        _ => {
+            if h[S].is_some() && h[T].is_none() {
+                let c = pool.copy_state(math, h[S].as_ref().unwrap());
+                // copy_state copies whatever the source holds, written or not
+                let src_v = h[S].as_ref().unwrap().point().v;
+                put(h, T, c);
+                g.grp[T] = g.next;
+                g.next += 1;
+                g.val[T] = Some(src_v);
+                assert!(h[T].as_ref().unwrap().point().v == src_v, "C03.6 VAL: copy_state copies the point");
+                assert!(g.val[S].is_none() || g.val[S] == Some(src_v), "C03.6 VAL: source unchanged by copy_state");
+            }
+        }
+    }
+}
+
 fn pool_body<const N: usize>() {
     let mut math: M = CpuMath::new_with_arch(PLogp, pulp::Arch::Scalar);
-    let pool: StatePool<M, KPoint> = StatePool::new(&mut math, 2);
+    let pool: StatePool<M, KPoint> = StatePool::new(&mut math, 2 * SLOTS);
     let mut h: [Option<State<M, KPoint>>; SLOTS] = [None, None, None];
     let mut g = Ghost { grp: [0; SLOTS], val: [None; SLOTS], next: 1 };
 
-    let mut step = 0;
-    while step < N {
+    let mut n = 0;
+    while n < N {
         let op: u8 = kani::any();
-        let s: usize = kani::any();
-        let t: usize = kani::any();
-        if op < 5 && s < SLOTS && t < SLOTS {
-            match op {
+        let s: u8 = kani::any();
+        if op < 5 && s < SLOTS as u8 {
+            // target slot of clone / copy_state: the lowest empty slot other than s
+            // (handles are interchangeable, so fixing the target loses no behaviour)
+            match s {
                 0 => {
-                    if h[s].is_none() {
-                        let st = pool.new_state(&mut math);
-                        h[s] = Some(st);
-                        g.grp[s] = g.next;
-                        g.next += 1;
-                        g.val[s] = None;
+                    if h[1].is_none() {
+                        step::<0, 1>(op, &pool, &mut math, &mut h, &mut g)
+                    } else {
+                        step::<0, 2>(op, &pool, &mut math, &mut h, &mut g)
                     }
                 }
                 1 => {
-                    if h[s].is_some() && h[t].is_none() {
-                        let c = h[s].as_ref().unwrap().clone();
-                        h[t] = Some(c);
-                        g.grp[t] = g.grp[s];
-                        g.val[t] = g.val[s];
-                    }
-                }
-                2 => {
-                    if h[s].is_some() {
-                        let st = h[s].take();
-                        drop(st);
-                    }
-                }
-                3 => {
-                    if h[s].is_some() {
-                        let shared = others_alive(&h, &g, s);
-                        let tag: i64 = kani::any();
-                        let ok = match h[s].as_mut().unwrap().try_point_mut() {
-                            Ok(p) => {
-                                p.v = tag;
-                                true
-                            }
-                            Err(_) => false,
-                        };
-                        assert!(ok == !shared, "C03.6 MUT: try_point_mut succeeds iff the state is unshared");
-                        if ok {
-                            g.val[s] = Some(tag);
-                        }
+                    if h[0].is_none() {
+                        step::<1, 0>(op, &pool, &mut math, &mut h, &mut g)
+                    } else {
+                        step::<1, 2>(op, &pool, &mut math, &mut h, &mut g)
                     }
                 }
                 _ => {
-                    if h[s].is_some() && h[t].is_none() {
-                        let c = pool.copy_state(&mut math, h[s].as_ref().unwrap());
-                        // copy_state copies whatever the source holds, written or not
-                        let src_v = h[s].as_ref().unwrap().point().v;
-                        h[t] = Some(c);
-                        g.grp[t] = g.next;
-                        g.next += 1;
-                        g.val[t] = Some(src_v);
-                        assert!(h[t].as_ref().unwrap().point().v == src_v, "C03.6 VAL: copy_state copies the point");
-                        assert!(g.val[s].is_none() || g.val[s] == Some(src_v), "C03.6 VAL: source unchanged by copy_state");
+                    if h[0].is_none() {
+                        step::<2, 0>(op, &pool, &mut math, &mut h, &mut g)
+                    } else {
+                        step::<2, 1>(op, &pool, &mut math, &mut h, &mut g)
                     }
                 }
             }
         }
         check_all(&pool, &h, &g);
-        step += 1;
+        n += 1;
     }
     // tear-down: drop every handle (recycling path), then the pool (free list with Weak back-references)
     let mut i = 0;
@@ -291,4 +339,34 @@ fn pool_ops4() {
 #[kani::unwind(10)]
 fn pool_ops6() {
     pool_body::<6>();
+}
+
+#[kani::proof]
+#[kani::unwind(8)]
+fn pool_ops2() {
+    pool_body::<2>();
+}
+#[kani::proof]
+#[kani::unwind(8)]
+fn pool_ops3() {
+    pool_body::<3>();
+}
+
+#[kani::proof]
+#[kani::unwind(8)]
+fn pool_probe_concrete() {
+    let mut math: M = CpuMath::new_with_arch(PLogp, pulp::Arch::Scalar);
+    let pool: StatePool<M, KPoint> = StatePool::new(&mut math, 2 * SLOTS);
+    let mut a = pool.new_state(&mut math);
+    let b = a.clone();
+    assert!(a.try_point_mut().is_err());
+    drop(b);
+    assert!(a.try_point_mut().is_ok());
+    let c = pool.new_state(&mut math);
+    assert!(c.point() as *const KPoint != a.point() as *const KPoint);
+    drop(a);
+    let d = pool.new_state(&mut math);
+    drop(c);
+    drop(d);
+    drop(pool);
 }
